@@ -24,8 +24,6 @@ func (t *tr) stmt(s ast.Stmt) {
 	case *ast.ExprStmt:
 		if call, ok := ast.Unparen(x.X).(*ast.CallExpr); ok {
 			t.evCall(call)
-		} else if u, ok := ast.Unparen(x.X).(*ast.UnaryExpr); ok && u.Op == token.ARROW {
-			t.ev(u.X)
 		} else {
 			t.ev(x.X)
 		}
@@ -298,7 +296,8 @@ func (t *tr) assignTo(l ast.Expr, v Term) {
 			i := t.ev(x.Index)
 			t.safety(and(le(intLit(0), i), lt(i, slLen(a))), "safety/index", x.Pos(), "index out of range in store")
 			es := t.V.W.sortOf(u.Elem())
-			h := t.elemHeap(es)
+			eT := types.Type(u.Elem())
+			h := t.elemHeapT(eT, es)
 			inner := sel(t.read(h), slArr(a))
 			t.heapStore(h, slArr(a), store(inner, add(slOff(a), i), v))
 		case *types.Map:
